@@ -531,3 +531,13 @@ def eq_hash(cls_short):
         if q1 == q2 and hash(q1) != hash(q2):
             return f"{qc.__name__}.from_('a') == {qc.__name__}.from_('b') (same alias None) but their hashes differ"
     return None
+
+
+def tables_complete():
+    from . import Table
+    a, b = Table("a"), Table("b")
+    c = (a.id == b.id)
+    got = {str(t) for t in c.tables_}
+    if got != {'"a"', '"b"'}:
+        return f"(a.id == b.id).tables_ == {got!r}: both tables occur in the expression"
+    return None
